@@ -254,6 +254,9 @@ func runDbLife(dir string, idx int, steps []dlStep, add func(step int, kind, wha
 				return
 			}
 			version = st.Content
+			// (the same version number can be written twice -- restore to an older version, write again -- with other time stamps in
+			// the entities: what "the content of this version" means from here on is what the restore brought back)
+			contentAt[version] = snaps[s].lines
 		case "getSnapshotId":
 			got, err := env.Db.GetSnapshotId()
 			want := ""
